@@ -456,17 +456,13 @@ func (p *proxyConn) writeResponse(res *http.Response) error {
 		}()
 	}
 
-	if p.closing() {
+	if p.closing() || req.Close {
 		res.Close = true
-	} else {
-		if req.Close {
-			res.Close = true
-		}
-		// Support CONNECT over HTTP/1.0.
-		// If connect is successful, the connection should not be closed.
-		if req.Method == http.MethodConnect && res.StatusCode/100 == 2 {
-			res.Close = false
-		}
+	}
+	// Support CONNECT over HTTP/1.0, and tunnels that are established while shutting down.
+	// If connect is successful, the connection should not be closed.
+	if req.Method == http.MethodConnect && res.StatusCode/100 == 2 {
+		res.Close = false
 	}
 
 	// An HTTP/1.0 client cannot parse a chunked body: fall back to a close-delimited one.
